@@ -192,6 +192,9 @@ func (b *Builder) addLengthPrefixed(lenLen int, isASN1 bool, f BuilderContinuati
 
 	offset := len(b.result)
 	b.add(make([]byte, lenLen)...)
+	if b.err != nil {
+		return
+	}
 
 	if b.inContinuation == nil {
 		b.inContinuation = new(bool)
